@@ -19,6 +19,8 @@ type Flow struct {
 	// bindings, loads of struct fields to every store to that (type, field) in the repository, and calls to
 	// repo functions into their returned values.
 	Inter bool
+	// NoFieldStores: with Inter, do not follow loads of struct fields to the stores of that field elsewhere.
+	NoFieldStores bool
 	// Visit is called for every value reached; returning false stops the descent below that value.
 	Visit func(v ssa.Value) bool
 	// Call decides what to follow below a call (nil = nothing for non-repo callees).
@@ -171,7 +173,7 @@ func (F *Flow) back(v ssa.Value, resIdx int) {
 			F.backCell(a, path, a.Parent())
 		} else {
 			F.back(root, -1)
-			if fa, ok := v.(*ssa.FieldAddr); ok && F.Inter {
+			if fa, ok := v.(*ssa.FieldAddr); ok && F.Inter && !F.NoFieldStores {
 				F.backFieldStores(fa)
 			}
 		}
